@@ -7,6 +7,7 @@ import (
 	"sync"
 	"time"
 
+	apiequality "k8s.io/apimachinery/pkg/api/equality"
 	"k8s.io/apimachinery/pkg/labels"
 
 	proxyv1alpha1 "github.com/kubewharf/kubegateway/pkg/apis/proxy/v1alpha1"
@@ -33,12 +34,18 @@ import (
 // status (the cluster sync rewrites their spec from the cluster object), and nothing of the other shard.
 
 type takeoverCase struct {
-	Mode      string   `json:"store_mode"`
-	Shard     int      `json:"shard"`
-	FailLists int      `json:"first_lists_fail,omitempty"`
-	Timeout   bool     `json:"lists_time_out,omitempty"`
-	At        int      `json:"fault_at_call,omitempty"`
-	Kind      string   `json:"fault_kind,omitempty"`
+	Mode      string `json:"store_mode"`
+	Shard     int    `json:"shard"`
+	FailLists int    `json:"first_lists_fail,omitempty"`
+	Timeout   bool   `json:"lists_time_out,omitempty"`
+	At        int    `json:"fault_at_call,omitempty"`
+	Kind      string `json:"fault_kind,omitempty"`
+	// During: what other goroutines of the server do WHILE the LIST of the take-over is in flight (the store is already
+	// in the limiter's map): "cluster-event:<upstream>" = the upstream controller delivers an event for a cluster of the
+	// shard; "report:<upstream>" = a gateway instance reports (UpdateRateLimitConditionStatus); "acquire:<upstream>".
+	// StaleList: the LIST answer was computed before these (it was on the wire meanwhile), else after.
+	During    []string `json:"while_the_list_is_in_flight,omitempty"`
+	StaleList bool     `json:"list_answer_computed_before,omitempty"`
 	Persisted []op     `json:"persisted_conditions"`
 	Clusters  []string `json:"upstream_clusters_in_the_lister"`
 }
@@ -52,6 +59,9 @@ func (c takeoverCase) String() string {
 		f = fmt.Sprintf("the first %d LISTs answer 503", c.FailLists)
 	case c.At > 0:
 		f = fmt.Sprintf("%s at API call %d", c.Kind, c.At)
+	}
+	if len(c.During) > 0 {
+		f += fmt.Sprintf("; while the LIST is in flight (answer computed %s): %s", map[bool]string{true: "before", false: "after"}[c.StaleList], strings.Join(c.During, ", "))
 	}
 	var ps []string
 	for _, p := range c.Persisted {
@@ -70,6 +80,9 @@ type takeoverResult struct {
 	Findings    []finding
 	Log         []string
 	Harness     string
+	// AckedDuringLoad: operations acknowledged while the LIST was in flight
+	AckedDuringLoad int
+	TriedDuringLoad int
 }
 
 func clusterObject(name string) *proxyv1alpha1.UpstreamCluster {
@@ -120,7 +133,7 @@ func runTakeover(tc takeoverCase) (res takeoverResult) {
 	for _, n := range tc.Clusters {
 		_ = uc.Indexer.Add(clusterObject(n))
 	}
-	_, h := limiter.VerifNewRateLimiter(cs, options.RateLimitOptions{ShardingCount: shardCount, LimitStore: "k8s", Identity: "server-1", K8sStoreSyncPeriod: period}, el, uc)
+	rl, h := limiter.VerifNewRateLimiter(cs, options.RateLimitOptions{ShardingCount: shardCount, LimitStore: "k8s", Identity: "server-1", K8sStoreSyncPeriod: period}, el, uc)
 	defer func() {
 		// release the store (and the periodic goroutine of a periodic store) whatever happened
 		inj.mu.Lock()
@@ -130,6 +143,63 @@ func runTakeover(tc takeoverCase) (res takeoverResult) {
 			_, _, _ = callOp(func() error { h.StopLeading(tc.Shard); return nil })
 		}
 	}()
+
+	const reporter = "GW-Upper.Example"
+	type ackedReport struct {
+		name string
+		ret  *proxyv1alpha1.RateLimitCondition
+	}
+	var acks []ackedReport
+	eventDuringLoad := map[string]bool{}
+	reportedUpstream := map[string]bool{}
+	if len(tc.During) > 0 {
+		inj.listStale = tc.StaleList
+		inj.listWindow = func() {
+			for _, d := range tc.During {
+				kind, u := d[:strings.Index(d, ":")], d[strings.Index(d, ":")+1:]
+				var err error
+				var ret *proxyv1alpha1.RateLimitCondition
+				out, _, pi := callOp(func() error {
+					switch kind {
+					case "cluster-event":
+						err = h.UpstreamConditionHandler(clusterObject(u))
+					case "report":
+						_ = rl.Heartbeat(reporter)
+						cond := &proxyv1alpha1.RateLimitCondition{
+							Spec: proxyv1alpha1.RateLimitSpec{UpstreamCluster: u, Instance: reporter, LimitItemConfigurations: []proxyv1alpha1.RateLimitItemConfiguration{{Name: "fc", Strategy: proxyv1alpha1.GlobalAllocateLimit,
+								LimitItemDetail: proxyv1alpha1.LimitItemDetail{MaxRequestsInflight: &proxyv1alpha1.MaxRequestsInflightFlowControlSchema{Max: 7}}}}},
+							Status: proxyv1alpha1.RateLimitStatus{LimitItemStatuses: []proxyv1alpha1.RateLimitItemStatus{{Name: "fc", RequestLevel: 40,
+								LimitItemDetail: proxyv1alpha1.LimitItemDetail{MaxRequestsInflight: &proxyv1alpha1.MaxRequestsInflightFlowControlSchema{Max: 3}}}}},
+						}
+						cond.Name = util.GenerateRateLimitConditionName(u, reporter)
+						ret, err = rl.UpdateRateLimitConditionStatus(u, cond)
+					case "acquire":
+						_, err = rl.DoAcquire(u, &proxyv1alpha1.RateLimitAcquire{Spec: proxyv1alpha1.RateLimitAcquireSpec{Instance: reporter, RequestID: 1,
+							Requests: []proxyv1alpha1.RateLimitAcquireRequest{{FlowControl: "fc", Tokens: 1}}}})
+					}
+					return nil
+				})
+				res.TriedDuringLoad++
+				switch {
+				case out == panicked:
+					res.Findings = append(res.Findings, finding{Oracle: "takeover-panics", What: fmt.Sprintf("%s while the LIST is in flight panics: %s in %s", d, pi.Value, pi.Frame)})
+					res.Log = append(res.Log, d+" (LIST in flight) -> PANIC "+pi.Value)
+				case err != nil:
+					res.Log = append(res.Log, d+" (LIST in flight) -> error: "+err.Error())
+				default:
+					res.Log = append(res.Log, d+" (LIST in flight) -> ok")
+					res.AckedDuringLoad++
+					switch kind {
+					case "cluster-event":
+						eventDuringLoad[u] = true
+					case "report":
+						reportedUpstream[u] = true
+						acks = append(acks, ackedReport{util.GenerateRateLimitConditionName(u, reporter), ret.DeepCopy()})
+					}
+				}
+			}
+		}
+	}
 
 	step := func(what string, fn func()) bool {
 		out, _, pi := callOp(func() error { fn(); return nil })
@@ -208,16 +278,64 @@ func runTakeover(tc takeoverCase) (res takeoverResult) {
 		}
 		c, ok := held[n]
 		isState := strings.HasSuffix(n, ".state")
+		// conditions of an upstream that was worked on while the LIST was in flight may legitimately have changed since
+		// they were persisted: only their presence is judged here, their content by the during-load oracles below
+		touched := false
+		for _, d := range tc.During {
+			if d[strings.Index(d, ":")+1:] == p.Spec.UpstreamCluster {
+				touched = true
+			}
+		}
 		switch {
 		case !ok:
 			res.Findings = append(res.Findings, finding{Oracle: "serves-shard-without-persisted-condition", Name: n,
 				What: fmt.Sprintf("the server serves shard %d but its store does not hold the persisted condition %s=%s", tc.Shard, n, valOf(p))})
+		case touched:
 		case isState && statusLevel(c) != statusLevel(p):
 			res.Findings = append(res.Findings, finding{Oracle: "persisted-upstream-state-rebuilt-from-scratch", Name: n,
 				What: fmt.Sprintf("the server serves shard %d with %s status level %d; the persisted state had level %d (the state was rebuilt instead of loaded)", tc.Shard, n, statusLevel(c), statusLevel(p))})
 		case !isState && valOf(c) != valOf(p):
 			res.Findings = append(res.Findings, finding{Oracle: "load-value-differs", Name: n,
 				What: fmt.Sprintf("the server serves shard %d with %s=%s, persisted was %s", tc.Shard, n, valOf(c), valOf(p))})
+		}
+	}
+	if len(tc.During) > 0 {
+		apiNow := map[string]*proxyv1alpha1.RateLimitCondition{}
+		obj, _ := a.tracker.List(condGVR, condGVR.GroupVersion().WithKind("RateLimitCondition"), "")
+		for _, it := range obj.(*proxyv1alpha1.RateLimitConditionList).Items {
+			c := it
+			apiNow[c.Name] = &c
+		}
+		// acknowledged => persisted (write-through), and the store does not contradict what it acknowledged
+		if tc.Mode == "write-through" {
+			for _, ack := range acks {
+				p, ok := apiNow[ack.name]
+				if !ok || !apiequality.Semantic.DeepEqual(p.Spec, ack.ret.Spec) || !apiequality.Semantic.DeepEqual(p.Status, ack.ret.Status) {
+					res.Findings = append(res.Findings, finding{Oracle: "acknowledged-during-load-not-persisted", Name: ack.name,
+						What: fmt.Sprintf("the report for %s was acknowledged while the LIST was in flight, the API does not hold what was acknowledged afterwards", ack.name)})
+				}
+			}
+		}
+		for _, ack := range acks {
+			c, ok := held[ack.name]
+			if !ok || !apiequality.Semantic.DeepEqual(c.Spec, ack.ret.Spec) || !apiequality.Semantic.DeepEqual(c.Status, ack.ret.Status) {
+				holds := "nothing"
+				if ok {
+					holds = fmt.Sprintf("quota %s", valOf(c))
+				}
+				res.Findings = append(res.Findings, finding{Oracle: "acknowledged-during-load-lost-from-the-store", Name: ack.name,
+					What: fmt.Sprintf("the report for %s was acknowledged (quota %s) while the LIST was in flight; after the load the store holds %s for it (Load put the older listed copy over it)", ack.name, valOf(ack.ret), holds)})
+			}
+		}
+		// a persisted upstream state must not be replaced by one built from scratch (no report recomputed it legitimately)
+		for u := range eventDuringLoad {
+			n := u + ".state"
+			p, was := persisted[n]
+			now, is := apiNow[n]
+			if was && is && !reportedUpstream[u] && tc.Mode == "write-through" && statusLevel(now) != statusLevel(p) {
+				res.Findings = append(res.Findings, finding{Oracle: "persisted-upstream-state-overwritten-by-a-fresh-one", Name: n,
+					What: fmt.Sprintf("a cluster event for %s was handled while the LIST was in flight: the store was still empty, so a state built from scratch was written over the persisted %s (status level %d -> %d in the API)", u, n, statusLevel(p), statusLevel(now))})
+			}
 		}
 	}
 	return res
@@ -266,6 +384,20 @@ func takeover(r *vkit.R) {
 				}
 			}
 		}
+		// plan C: other goroutines of the server work on the shard while the LIST of the take-over is in flight
+		if len(clusters) > 0 {
+			u := own[0] // always in the lister, always has a persisted state
+			for _, mode := range []string{"write-through", "periodic"} {
+				for _, during := range [][]string{{"cluster-event:" + u}, {"report:" + u}, {"cluster-event:" + u, "report:" + u}, {"acquire:" + u, "cluster-event:" + u, "acquire:" + u}} {
+					for _, stale := range []bool{false, true} {
+						tc := takeoverCase{Mode: mode, Shard: shard, Persisted: persisted, Clusters: clusters, During: during, StaleList: stale}
+						jobs = append(jobs, tc)
+						tc.FailLists = 1 // (the first LIST fails, the window opens on the second)
+						jobs = append(jobs, tc)
+					}
+				}
+			}
+		}
 		// plan B: every position of the fault-free write-through take-over (positions are deterministic there: no goroutine)
 		base := takeoverCase{Mode: "write-through", Shard: shard, Persisted: persisted, Clusters: clusters}
 		free := runTakeover(base)
@@ -293,7 +425,23 @@ func takeover(r *vkit.R) {
 			return
 		}
 		plan := "no-fault"
+		if len(tc.During) > 0 {
+			var ks []string
+			for _, d := range tc.During {
+				k := d[:strings.Index(d, ":")]
+				if len(ks) == 0 || ks[len(ks)-1] != k {
+					ks = append(ks, k)
+				}
+			}
+			plan = "during-load=" + strings.Join(ks, "+") + "/list-answer-computed-" + map[bool]string{true: "before", false: "after"}[tc.StaleList]
+			mu.Lock()
+			byPlan["(runs with work while the LIST is in flight)"]++
+			byPlan["(operations acknowledged while the LIST was in flight)"] += res.AckedDuringLoad
+			byPlan["(operations performed while the LIST was in flight)"] += res.TriedDuringLoad
+			mu.Unlock()
+		}
 		switch {
+		case len(tc.During) > 0:
 		case tc.FailLists == 1:
 			plan = "list-fails-once"
 		case tc.FailLists > 1:
@@ -317,6 +465,10 @@ func takeover(r *vkit.R) {
 		seen := map[string]bool{}
 		for _, f := range res.Findings {
 			sig := "C19/limiter-takeover/" + f.Oracle + "/" + plan
+			if len(tc.During) > 0 {
+				// which operations and which LIST order: in the text and the witness (one cause: the store is visible before it is loaded)
+				sig = "C19/limiter-takeover/" + f.Oracle + "/work-while-list-in-flight"
+			}
 			if seen[sig] {
 				continue
 			}
@@ -336,4 +488,6 @@ func takeover(r *vkit.R) {
 		}
 	}
 	r.Require(n >= r.N(40, 400), "too few single faults at the positions of a take-over")
+	r.Require(byPlan["(runs with work while the LIST is in flight)"] >= r.N(150, 1500) && byPlan["(operations performed while the LIST was in flight)"] >= r.N(200, 2000),
+		"work while the LIST of a take-over is in flight hardly exercised") // (a server that refuses such work until it has loaded acknowledges none of it: that is fine)
 }
